@@ -95,14 +95,50 @@ def gen_hist(rng, quick):
     segs = [gen_segment(rng, quick, kind, axis, one)]
     while len(segs) < 3 and rng.random() < 0.2:
         segs.append(gen_segment(rng, quick, kind, axis, one))      # cold refit on other data, same object
-    return dict(kind=kind, axis=axis, segments=segs)
+    return dict(kind=kind, axis=axis, segments=segs,
+                ptypes=gen_ptypes(rng, [st["mixing"] for sg in segs for st in sg["stages"]]),
+                readonly=rng.random() < 0.3)
 
 
 # ----------------------------------------------------------------------------- implementation
-def stage_params(kind, st):
-    kw = dict(recompute_every=st["re"], k=st["k"], n_to_select=st["nts"], tolerance=st["tol"])
+# ----------------------------------------------------------------------------- parameter presentations
+INT_TYPES = ["int", "int", "int64", "int32", "intp"]
+
+
+def cast_param(v, how):
+    """the same VALUE as another scalar type (hyper-parameters arrive as numpy scalars whenever they come
+    out of np.arange / a grid / a loaded configuration)."""
+    if how in (None, "int", "float"):
+        return v
+    if how == "pyint":                     # mixing 0.0 / 1.0 given as the integer 0 / 1
+        return int(v)
+    return getattr(np, how)(v)
+
+
+def gen_ptypes(rng, mixings=()):
+    """scalar types for (recompute_every, k, n_to_select, mixing, tolerance); python types with
+    probability 1/2.  np.float32 / int mixing only when the value and 1 - value stay exact."""
+    if rng.random() < 0.5:
+        return None
+    pt = dict(re=rng.choice(INT_TYPES), k=rng.choice(INT_TYPES), nts=rng.choice(INT_TYPES),
+              tol=rng.choice(["float", "float64"]), mixing="float")
+    ms = [m for m in mixings if m is not None]
+    if ms:
+        opts = ["float", "float64"]
+        if all(m in (0.0, 0.25, 0.5, 0.75, 1.0) for m in ms):
+            opts.append("float32")
+        if all(m in (0.0, 1.0) for m in ms):
+            opts += ["pyint", "pyint"]
+        pt["mixing"] = rng.choice(opts)
+    return pt
+
+
+def stage_params(kind, st, pt=None):
+    pt = pt or {}
+    kw = dict(recompute_every=cast_param(st["re"], pt.get("re")), k=cast_param(st["k"], pt.get("k")),
+              n_to_select=cast_param(st["nts"], pt.get("nts")), tolerance=cast_param(st["tol"], pt.get("tol")))
     if kind == "pcovcur":
-        kw["mixing"] = st["mixing"]
+        kw["mixing"] = cast_param(st["mixing"], pt.get("mixing"))
     return kw
 
 
@@ -173,7 +209,9 @@ def gen_presentation(rng, case):
 
 def run_impl(case):
     pres = case.get("present") or {}
-    sel = S.make_selector(case["kind"], case["axis"], **stage_params(case["kind"], case["segments"][0]["stages"][0]))
+    pt = case.get("ptypes")
+    sel = S.make_selector(case["kind"], case["axis"],
+                          **stage_params(case["kind"], case["segments"][0]["stages"][0], pt))
     rec = Recorder(sel)
     pir = F.PiRecorder(sel)
     out = dict(segments=[], hook=pir.ok)
@@ -184,12 +222,17 @@ def run_impl(case):
             Y = None if seg["y"] is None else np.array(seg["y"], dtype=float)
             nrows = len(X)
             X, Y = present_X(X, pres.get("X")), present_y(Y, pres.get("y"))
+            # purity: the caller's arrays are snapshotted and, in a share of the histories, read-only
+            snap = [(nm, A, A.copy()) for nm, A in (("X", X), ("y", Y)) if isinstance(A, np.ndarray)]
+            if case.get("readonly"):
+                for _, A, _ in snap:
+                    A.setflags(write=False)
             so = dict(stages=[])
             out["segments"].append(so)
             p0, r0 = len(rec.calls), len(pir.calls)
             for si, st in enumerate(seg["stages"]):
                 try:
-                    sel.set_params(**stage_params(case["kind"], st))
+                    sel.set_params(**stage_params(case["kind"], st, pt))
                     rs = len(pir.calls)
                     if Y is None:
                         sel.fit(X, warm_start=(si > 0))
@@ -198,6 +241,11 @@ def run_impl(case):
                 except Exception as e:      # noqa
                     out["error"] = "%s: %s" % (type(e).__name__, str(e)[:200])
                     return out
+                for nm, A, A0 in snap:
+                    if A.dtype != A0.dtype or A.shape != A0.shape or A.tobytes() != A0.tobytes():
+                        out.setdefault("impure", "fit %d of segment %d modified the caller's %s (max change %.3g)" % (
+                            si, len(out["segments"]) - 1, nm,
+                            float(np.abs(A.astype(float) - A0.astype(float)).max())))
                 yc = getattr(sel, "y_current_", None)
                 so["stages"].append(dict(
                     sel=[int(i) for i in sel.selected_idx_], nsel=int(sel.n_selected_),
@@ -453,7 +501,9 @@ def oracle_segment(case, seg, so, gap_gate=1e-6, tie=1e-9):
 def oracle(case, res):
     info = dict(steps=0, tie_accepted=0, gap_skipped=0, premise_skipped=0, rcond_skipped=0)
     if "error" in res:
-        return "fit raised " + res["error"], info
+        return "fit raised " + res["error"] + (" [read-only input]" if case.get("readonly") else ""), info
+    if res.get("impure"):
+        return res["impure"], info
     for seg, so in zip(case["segments"], res["segments"]):
         msg, i2 = oracle_segment(case, seg, so)
         for k in info:
@@ -468,13 +518,13 @@ def twin_case(case):
     """the history that, by the last sentence of the property, must select the same items:
     sample CUR on X <-> feature CUR on X^T;  PCov-CUR with mixing = 1 throughout <-> CUR."""
     if case["kind"] == "cur":
-        return dict(kind="cur", axis=1 - case["axis"],
+        return dict(kind="cur", axis=1 - case["axis"], ptypes=case.get("ptypes"), readonly=case.get("readonly"),
                     segments=[dict(seg, X=np.array(seg["X"], dtype=float).T.tolist()) for seg in case["segments"]]), \
             "sample CUR on X vs feature CUR on X^T"
     if all(st["mixing"] == 1.0 for seg in case["segments"] for st in seg["stages"]):
         if any(st["k"] >= min(len(seg["X"]), len(seg["X"][0])) for seg in case["segments"] for st in seg["stages"]):
             return None, None          # svds needs k < min(shape)
-        return dict(kind="cur", axis=case["axis"],
+        return dict(kind="cur", axis=case["axis"], ptypes=case.get("ptypes"), readonly=case.get("readonly"),
                     segments=[dict(seg, y=None, stages=[dict(st, mixing=None) for st in seg["stages"]])
                               for seg in case["segments"]]), "PCov-CUR with mixing = 1 vs CUR"
     return None, None
@@ -590,6 +640,10 @@ def compare_presentation(case, res, case2, res2):
                 return "%s: the importance vectors of the cold start differ by %.3g" % (what, d), info
             info["segments"] += 1
         return None, info
+    if pres.get("y") == "float32":
+        # pcovr_kernel / pcovr_covariance then form (1 - mixing) * y and y @ y.T in single precision: the
+        # importance vector is determined to ~1e-7 / gap only
+        return compare_twin(case, res, case2, res2, what, gap_gate=1e-2, pitol=2e-3, ytol=1e-5)
     if "error" not in res2:
         msg, _ = oracle(case, res2)            # the property itself, on the other presentation
         if msg:
